@@ -361,6 +361,9 @@ ENGINE_RULE = ("(pattern AST from the generator, flags, haystack sampled from th
                "non-trivial = the search finds a match; distinct by (pattern, flags, haystack, start)")
 
 PLANS = {
+    "C15": dict(proofs=["Proofs.C15"], runs=[], custom="c15",
+                rule="one generated case file ((flags, pattern incl. single-token mutations of valid patterns, haystack, start)) replayed through find_from (optimized and no_opt, backtracking and PikeVM) by binaries built with default / index-positions / prohibit-unsafe / both / utf16 / alloc-only features; non-trivial = the default build finds a match",
+                technique="Lean 4 proof (any two build variants that refine the executor model agree wherever no error site is reachable - by the C06 safety theorem) + replay of one case file through six feature builds"),
     "C20": dict(proofs=["Proofs.C20"], fset="pattern", toolchain="+nightly",
                 runs=[("c20", dict(quick=3000, thorough=100000))],
                 rule="(regex from pool/generator, haystack incl. multi-byte text, interleaving of next()/next_back() calls: all-forward, all-backward, 3 random); non-trivial = regex has a match; plus str::find/rfind/contains/matches/rmatches/split/rsplit compared with find_iter",
@@ -416,6 +419,63 @@ PLANS = {
                 rule="all strings up to length 2 (thorough 3) over 24 syntax/other characters + random longer ones, x 12 flag sets x 8 haystacks; non-trivial = contains a syntax character",
                 technique="Lean 4 proof over the escape model + exhaustive short-string differential against substring search"),
 }
+
+
+def c15_replay(default_binary, tier, seed, stats, violations, broken):
+    """One case file replayed through the string APIs of six builds; every output must equal the default build's."""
+    n = 20000 if tier == "quick" else 400000
+    base = os.path.join(BUILD, "runs", "C15")
+    rc, out, rep = run_harness(default_binary, "gencases", os.path.join(base, "gen"), ["--seed", str(seed), "--n", str(n)])
+    cases = os.path.join(base, "gen", "cases.txt")
+    if rc != 0 or not os.path.exists(cases):
+        broken.append({"tie": "C15 case generation", "detail": out[-2000:]})
+        return
+    lines = open(cases).read().splitlines()
+    stats["evaluations"] = stats.get("evaluations", 0) + len(lines)
+    outputs = {}
+    for fset in ["default", "index", "safe", "index-safe", "utf16", "alloc"]:
+        okb, bout, binary = cargo_build(fset)
+        if not okb:
+            broken.append({"tie": "cargo build of feature set " + fset, "detail": bout[-2000:]})
+            continue
+        d = os.path.join(base, fset)
+        os.makedirs(d, exist_ok=True)
+        try:
+            os.remove(os.path.join(d, "replay.txt"))
+        except FileNotFoundError:
+            pass
+        rc, rout = run([binary, "replay", "--aux", cases, "--out", d], timeout=7200)
+        rp = os.path.join(d, "replay.txt")
+        if rc != 0 or not os.path.exists(rp):
+            violations.append({"kind": "panic", "what": "the %s build died (exit status %s) while replaying the case file" % (fset, rc),
+                               "case": "rvharness[%s] replay %s" % (fset, cases)})
+            continue
+        outputs[fset] = open(rp).read().splitlines()
+        stats["dist"]["c15:replayed-by-" + fset] = len(outputs[fset])
+    ref = outputs.get("default")
+    if ref is None:
+        return
+    nontrivial = set()
+    for i, r in enumerate(ref):
+        if r.startswith("ok") and "[]" not in r.split(" ")[1]:
+            nontrivial.add(lines[i])
+    stats["distinct_nontrivial"] = stats.get("distinct_nontrivial", 0) + len(nontrivial)
+    stats["dist"]["c15:compile-errors"] = sum(1 for r in ref if r == "err")
+    stats["samples"] += ["%s => %s" % (lines[i], ref[i]) for i in range(0, min(len(ref), 2000), 400)]
+    for fset, outp in outputs.items():
+        if fset == "default":
+            continue
+        for i, (a, b) in enumerate(zip(ref, outp)):
+            if "fuel" in a or "fuel" in b:
+                # the step budget of hook H1 is not available in every build (no thread-locals without std)
+                stats["dist"]["c15:fuel-skips"] = stats["dist"].get("c15:fuel-skips", 0) + 1
+                continue
+            if a != b:
+                violations.append({"kind": "impl-vs-impl", "case": "F8CTX-none " + lines[i],
+                                   "what": "feature set %s [%s] differs from default [%s]" % (fset, b, a)})
+                break
+        if len(outp) != len(ref):
+            violations.append({"kind": "impl-vs-impl", "case": cases, "what": "feature set %s answered %d of %d cases" % (fset, len(outp), len(ref))})
 
 
 def write_evidence(pid, tier, seed, t0, plan, stats):
@@ -564,6 +624,9 @@ def check(pid, tier, seed):
                     stats["model_diffs"] = stats.get("model_diffs", 0) + len(tie_diffs)
                     if tie_diffs:
                         broken.append({"tie": "correspondence %s (model vs implementation)" % cmd, "detail": tie_diffs[:5]})
+
+    if plan.get("custom") == "c15" and okc:
+        c15_replay(binary, tier, seed, stats, violations, broken)
 
     # classification
     rc = 0
